@@ -44,7 +44,7 @@ def perform(ctx, binary, scs, tag="c03"):
     inp = os.path.join(ctx.scratch, tag + "_in.json")
     out = os.path.join(ctx.scratch, tag + "_out.json")
     json.dump(scs, open(inp, "w"))
-    rc, txt = ctx.run_bin(binary, "^TestVerifC03$", env={"VERIF_CASES": inp, "VERIF_OUT": out}, timeout=3000)
+    rc, txt = ctx.run_bin(binary, "^TestVerifC03$", env={"VERIF_CASES": inp, "VERIF_OUT": out}, timeout=9000)
     if rc != 0 or not os.path.exists(out):
         raise vlib.Infra("C03 harness failed rc=%s:\n%s" % (rc, txt[-3000:]))
     results = json.load(open(out))
@@ -60,7 +60,7 @@ def perform(ctx, binary, scs, tag="c03"):
                                 "truncate": bool(by_run[r["run"]]["truncate"])}) + "\n")
             shapes.add(json.dumps([by_run[r["run"]]["streams"], [h for h in by_run[r["run"]]["hist"] if h[0] in ("kill", "stop", "commit", "deliver", "truncate")],
                                    by_run[r["run"]]["rotate_at"]]))
-    mon = ctx.tlc("FileInputMon", "FileInputMon.cfg", workers=1, files={trace: "trace.ndjson"}, timeout=600, deadlock=False,
+    mon = ctx.tlc("FileInputMon", "FileInputMon.cfg", workers=1, files={trace: "trace.ndjson"}, timeout=1800, deadlock=False,
                   name="FileInputMon/trace")
     rep = [p for p in mon.printed if isinstance(p, dict) and "viol" in p]
     if not mon.ok or not rep:
@@ -87,7 +87,7 @@ def commit_order_stage(ctx):
     binary = ctx.go_test_build("plugin/input/file")
     scs = []
     k = 1
-    r = ctx.tlc("FileInput", "FileInput_base.cfg", overrides={"ResidualOnly": "TRUE", "NLines": "4", "M_SkipOnlyOwnStream": "FALSE"}, timeout=600,
+    r = ctx.tlc("FileInput", "FileInput_base.cfg", overrides={"ResidualOnly": "TRUE", "NLines": "4", "M_SkipOnlyOwnStream": "FALSE"}, timeout=1800,
                 deadlock=False, name="FileInput/mutant-M_SkipOnlyOwnStream (history for the real input)")
     if r.ok or r.violated != "AtLeastOnce":
         raise vlib.Infra("spec mutant M_SkipOnlyOwnStream produced no counterexample (violated=%s)" % r.violated)
@@ -96,7 +96,7 @@ def commit_order_stage(ctx):
     k += 1
     for ov, cnt in (({"ResidualOnly": "TRUE", "NLines": "5"}, 160 if thorough else 40), ({"ResidualOnly": "TRUE", "NLines": "5", "SyncMode": "FALSE"}, 80 if thorough else 20)):
         res = ctx.tlc("FileInput", "FileInput_sim.cfg", overrides=ov, workers=1, simulate="num=%d" % cnt, depth=80, seed=ctx.seed + 17,
-                      timeout=300, deadlock=False, check=False, name="FileInput/simulate (several streams)")
+                      timeout=900, deadlock=False, check=False, name="FileInput/simulate (several streams)")
         if res.rc == -9 or res.violated is not None:
             raise vlib.Infra("simulation of FileInput.tla failed:\n%s" % res.out[-2000:])
         for p in res.printed:
@@ -119,27 +119,27 @@ def run(ctx):
     thorough = ctx.tier == "thorough"
     binary = ctx.go_test_build("plugin/input/file")
     # 1. design level
-    d3 = ctx.tlc("FileInput", "FileInput_base.cfg", timeout=600, deadlock=False, name="FileInput/faithful")
+    d3 = ctx.tlc("FileInput", "FileInput_base.cfg", timeout=1800, deadlock=False, name="FileInput/faithful")
     if d3.ok or d3.violated != "AtLeastOnce":
         raise vlib.Infra("design model does not reproduce D3 (violated=%s)" % d3.violated)
     n = "5" if thorough else "4"
     for sync in ("TRUE", "FALSE"):
         ctx.tlc_expect_ok("FileInput", "FileInput_base.cfg", overrides={"ResidualOnly": "TRUE", "NLines": n, "SyncMode": sync},
-                          timeout=1200, deadlock=False, name="FileInput/residual sync=%s" % sync)
+                          timeout=3600, deadlock=False, name="FileInput/residual sync=%s" % sync)
         ctx.tlc_expect_ok("FileInput", "FileInput_base.cfg", overrides={"D_SeekMinSaved": "FALSE", "NLines": n, "SyncMode": sync},
-                          timeout=1200, deadlock=False, name="FileInput/repaired-rule sync=%s" % sync)
+                          timeout=3600, deadlock=False, name="FileInput/repaired-rule sync=%s" % sync)
     # graceful stop: the input writes its offsets once more; without that write an asynchronous save interval of commits is missing
-    ms = ctx.tlc("FileInput", "FileInput_base.cfg", overrides={"ResidualOnly": "TRUE", "SyncMode": "FALSE", "M_StopSaves": "FALSE"}, timeout=600,
+    ms = ctx.tlc("FileInput", "FileInput_base.cfg", overrides={"ResidualOnly": "TRUE", "SyncMode": "FALSE", "M_StopSaves": "FALSE"}, timeout=1800,
                  deadlock=False, name="FileInput/mutant-M_StopSaves")
     if ms.ok or ms.violated != "CleanStopSavesAll":
         raise vlib.Infra("spec mutant M_StopSaves is not rejected by CleanStopSavesAll (violated=%s)" % ms.violated)
     # discovery of files under rotation, and truncation detection next to a concurrent reader/writer (the code as repaired:
     # D22, D21; the old behaviours are the mutants, which TLC must reject)
-    ctx.tlc_expect_ok("FileDiscovery", "FileDiscovery_ok.cfg", timeout=600, deadlock=False, name="FileDiscovery/faithful")
-    ctx.tlc_expect_ok("TruncCheck", "TruncCheck_ok.cfg", timeout=600, deadlock=False, name="TruncCheck/faithful")
+    ctx.tlc_expect_ok("FileDiscovery", "FileDiscovery_ok.cfg", timeout=1800, deadlock=False, name="FileDiscovery/faithful")
+    ctx.tlc_expect_ok("TruncCheck", "TruncCheck_ok.cfg", timeout=1800, deadlock=False, name="TruncCheck/faithful")
     for mod, cfg, inv in (("FileDiscovery", "FileDiscovery_mut.cfg", "KeyIsOpenedFile"), ("TruncCheck", "TruncCheck_mut_stale.cfg", "TruncatedOnlyIfShrunk"),
                           ("TruncCheck", "TruncCheck_mut_rewrite.cfg", "OffsetIsPosition")):
-        r = ctx.tlc(mod, cfg, timeout=300, deadlock=False, name="%s/mutant %s" % (mod, cfg))
+        r = ctx.tlc(mod, cfg, timeout=900, deadlock=False, name="%s/mutant %s" % (mod, cfg))
         if r.ok or r.violated != inv:
             raise vlib.Infra("spec mutant %s of %s is not rejected by %s (violated=%s)" % (cfg, mod, inv, r.violated))
     scs = []
@@ -150,7 +150,7 @@ def run(ctx):
     for sw, ov in MUTANTS:
         o = dict(ov)
         o[sw] = "FALSE"
-        r = ctx.tlc("FileInput", "FileInput_base.cfg", overrides=o, timeout=600, deadlock=False, name="FileInput/mutant-%s" % sw)
+        r = ctx.tlc("FileInput", "FileInput_base.cfg", overrides=o, timeout=1800, deadlock=False, name="FileInput/mutant-%s" % sw)
         if r.ok or r.violated != "AtLeastOnce":
             raise vlib.Infra("spec mutant %s produced no counterexample (violated=%s)" % (sw, r.violated))
         streams, hist = hist_of(r.trace[-1][1])
@@ -162,7 +162,7 @@ def run(ctx):
              ({"NLines": "4"}, 24 if thorough else 6)]
     for ov, cnt in plans:
         res = ctx.tlc("FileInput", "FileInput_sim.cfg", overrides=ov, workers=1, simulate="num=%d" % cnt, depth=80, seed=ctx.seed,
-                      timeout=300, deadlock=False, check=False, name="FileInput/simulate")
+                      timeout=900, deadlock=False, check=False, name="FileInput/simulate")
         if res.rc == -9 or res.violated is not None:
             raise vlib.Infra("simulation of FileInput.tla failed:\n%s" % res.out[-2000:])
         for p in res.printed:
